@@ -63,27 +63,29 @@ def verify(d):
 
 
 def detect(d, props):
+    """run the checks against a scratch worktree with the patch applied (never touches /repo)"""
     d = os.path.abspath(d)
-    rc, out = sh(["git", "-C", REPO, "status", "--porcelain", "--untracked-files=no"])
-    if out.strip():
-        raise SystemExit("refusing: /repo has uncommitted changes:\n" + out)
+    wt = tempfile.mkdtemp(prefix="seeddetect_", dir="/tmp")
+    os.rmdir(wt)
+    rc, out = sh(["git", "-C", REPO, "worktree", "add", "-q", "--detach", wt, "HEAD"])
     results = {}
-    rc, out = sh(["git", "-C", REPO, "apply", os.path.join(d, "patch.diff")])
-    if rc != 0:
-        raise SystemExit("patch does not apply to /repo: " + out)
     try:
+        rc, out = sh(["git", "apply", os.path.join(d, "patch.diff")], cwd=wt)
+        if rc != 0:
+            raise SystemExit("patch does not apply: " + out)
         for prop in props:
             t0 = time.time()
             scratch = tempfile.mkdtemp(prefix="seedout_", dir="/tmp")
             rc, out = sh([os.path.join(ROOT, "check"), prop, "--tier", "quick"], cwd=ROOT, timeout=3600,
-                         env=dict(os.environ, VF_OUT_DIR=scratch))
+                         env=dict(os.environ, VF_OUT_DIR=scratch, VF_REPO=wt))
             sh(["rm", "-rf", scratch])
             viol = [ln for ln in out.splitlines() if ln.startswith("VIOLATION")]
             obl = [ln.strip() for ln in out.splitlines() if ln.strip().startswith("obligation=")]
-            results[prop] = {"rc": rc, "violations": viol[:5], "first": obl[:3], "wall_s": round(time.time() - t0, 1),
+            results[prop] = {"rc": rc, "violations": [v.split(" replay=")[0] + " replay=" + os.path.basename(v) for v in viol[:5]],
+                             "first": obl[:3], "wall_s": round(time.time() - t0, 1),
                              "summary": out.strip().splitlines()[-1] if out.strip() else ""}
     finally:
-        sh(["git", "-C", REPO, "checkout", "--", "."])
+        sh(["git", "-C", REPO, "worktree", "remove", "--force", wt])
     return results
 
 
